@@ -97,6 +97,17 @@ func BankVMProfile(seed int64, out *Recorder, nOps int) *Chain {
 		c.Out.Tx(c, c.Accts[who].Name, []D{{"t": "cvm.deploy", "caller": Hex(c.Accts[who].Addr), "kind": kind, "code": strings.ToUpper(vmPrograms[kind]),
 			"value": value, "expect": "ok", "newAddr": newAddr}}, res, D{"fee": DefaultFee, "gas": 3000000, "signerAddr": Hex(c.Accts[who].Addr)})
 	}
+	// a deployment whose constructor works for a while and then destroys the contract being created: the execution succeeds,
+	// its result cannot be committed (there is no account to give the code to), and the work must be charged all the same.
+	// Every instruction costs at least one unit of gas (Props/C17 step_costs_at_least_one), the loop runs 6 instructions
+	// 50,000 times: the transaction must be charged at least 300,000.
+	deployWorkSuicide := func(who int) {
+		init := []byte{0x61, 0xc3, 0x50, 0x5b, 0x60, 0x01, 0x90, 0x03, 0x80, 0x60, 0x03, 0x57, 0x33, 0xff}
+		m := cvmtypes.NewMsgDeploy(c.Accts[who].Addr.String(), 0, init, "", nil, false, false)
+		res := c.Deliver(who, 3000000, DefaultFee, &m)
+		c.Out.Tx(c, c.Accts[who].Name, []D{{"t": "cvm.deploy", "caller": Hex(c.Accts[who].Addr), "kind": "workSuicide", "code": "",
+			"value": 0, "expect": "any", "newAddr": "", "minGas": 300000}}, res, D{"fee": DefaultFee, "gas": 3000000, "signerAddr": Hex(c.Accts[who].Addr)})
+	}
 	// seed a few contracts so that calls have targets early
 	for _, k := range []string{"stop", "store", "storeRevert", "revert", "forward", "innerCall", "suicide"} {
 		deploy(rng.Intn(cfg.NAcc), k, 0)
@@ -228,13 +239,20 @@ func BankVMProfile(seed int64, out *Recorder, nOps int) *Chain {
 			if rng.Intn(3) == 0 {
 				value = uint64(amounts(who))
 			}
+			if rng.Intn(8) == 0 {
+				deployWorkSuicide(who)
+				continue
+			}
 			deploy(who, kinds[rng.Intn(len(kinds))], value)
 		default: // call
 			if rng.Intn(6) == 0 { // a value call with empty data to an account without code: a plain transfer made by the VM
-				to := c.Accts[rng.Intn(len(c.Accts))]
+				toAddr := c.Accts[rng.Intn(len(c.Accts))].Addr
+				if rng.Intn(4) == 0 { // the all-zero address (Burrow's global-permissions account) is an account like any other to the bank
+					toAddr = make(sdk.AccAddress, 20)
+				}
 				value := uint64(amounts(who))
-				m := cvmtypes.NewMsgCall(ac.Addr.String(), to.Addr.String(), value, nil)
-				c.DoGas(who, 3000000, DefaultFee, []D{{"t": "cvm.call", "caller": Hex(ac.Addr), "callee": Hex(to.Addr), "kind": "none", "value": value, "data": "", "expect": "any"}}, nil, &m)
+				m := cvmtypes.NewMsgCall(ac.Addr.String(), toAddr.String(), value, nil)
+				c.DoGas(who, 3000000, DefaultFee, []D{{"t": "cvm.call", "caller": Hex(ac.Addr), "callee": Hex(toAddr), "kind": "none", "value": value, "data": "", "expect": "any"}}, nil, &m)
 				continue
 			}
 			d := pickContract()
@@ -281,6 +299,9 @@ func BankVMProfile(seed int64, out *Recorder, nOps int) *Chain {
 					t = d.Addr
 				case 3:
 					t = ac.Addr
+					if rng.Intn(2) == 0 {
+						t = make([]byte, 20) // the all-zero address
+					}
 				case 4:
 					t = c.Accts[rng.Intn(len(c.Accts))].Addr
 				case 5:
